@@ -70,10 +70,10 @@ def run(R):
             c.need(len(ks) == 1, '%s: %s not found' % (name, setter))
             n, k = ks[0]
             # (a local that merely holds the future -- `fut = self.fut` -- is written out)
-            ts = [t for t in g.nodes if t.kind == 'test' and ctext(t.ast, f) in ('not self.fut.done()', 'self.fut.done()')]
+            ts = [t for t in g.nodes if t.kind == 'test' and ctext(t.ast, f, stale_ok=True) in ('not self.fut.done()', 'self.fut.done()')]
             ok = False
             for t in ts:
-                edge = 'true' if ctext(t.ast, f).startswith('not') else 'false'
+                edge = 'true' if ctext(t.ast, f, stale_ok=True).startswith('not') else 'false'
                 if n in guard_region(g, t, edge):
                     ok = True
             c.check(ok, f, k, 'the future is resolved only if it is not already done (a late callback cannot raise InvalidStateError)', tag='guard-' + name)
@@ -141,7 +141,7 @@ def check_data_received(c, f):
     dn = decs[0]
     s = dn.ast.targets[0].id
     dk = dn.ast.value
-    c.check(dk.args and is_name(dk.args[0], dp) and ctext(dk.func.value, f).endswith('spawn._decoder'), f, dk,
+    c.check(dk.args and is_name(dk.args[0], dp) and ctext(dk.func.value, f, stale_ok=True).endswith('spawn._decoder'), f, dk,
             'the received bytes go through the spawn\'s persistent decoder', witness=norm(dk), kind='ast', tag='decode')
     mn, mx = g.occurrences(lambda n: n is dn)
     c.check(mn == 1 and mx == 1, f, dk, 'decoded exactly once on every path', witness='min=%s max=%s' % (mn, mx), tag='decode-once')
@@ -186,7 +186,7 @@ def check_eof(c, repo):
     f = repo.func(MOD + ':PatternWaiter.eof_received')
     g = f.cfg
     fl = [n for n in g.nodes if n.kind == 'stmt' and stmt_assigns_attr(n.ast, 'flag_eof') is not None and is_const(n.ast.value, True)]
-    ek = cfg_nodes_with_call(f, lambda k: callee_last(k) == 'eof' and ctext(k.func.value, f) == 'self.expecter')
+    ek = cfg_nodes_with_call(f, lambda k: callee_last(k) == 'eof' and ctext(k.func.value, f, stale_ok=True) == 'self.expecter')
     c.need(len(ek) == 1, 'eof_received: self.expecter.eof() not found')
     c.check(len(fl) == 1 and g.dominated_by(ek[0][0], {fl[0]})[0], f, fl[0].ast if fl else ek[0][1], 'flag_eof is set before the outcome is computed', tag='flag-first')
     tr = [t for t in iter_nodes(f.node) if isinstance(t, ast.Try)]
